@@ -129,7 +129,7 @@ def align(text, tokens, bad_positions, count_mode=False, want=None):
             c = tt[k]
             pos = (cur.line, cur.col)
             sl = cur.splice_len()
-            m = _matches(cur, c) if cur.i < n else 0
+            m = _matches(cur, c, tokens[ti].type not in TEXTUAL) if cur.i < n else 0
             choice = None
             if count_mode and first and cur.i < n and len(bad_used) < nbad and not sl:
                 save("bad")
@@ -213,7 +213,7 @@ def _step(choice, cur, text, tokens, texts, ti, k, first, expected, spans, inner
             inner_splice[ti] = True
         return ti, k, first, False
     if choice == "literal":
-        m = _matches(cur, tt[k])
+        m = _matches(cur, tt[k], tokens[ti].type not in TEXTUAL)
         if first:
             expected.append(pos)
             spans[ti][0] = cur.i
@@ -238,8 +238,10 @@ def _step(choice, cur, text, tokens, texts, ti, k, first, expected, spans, inner
     return ti, k, first, False
 
 
-def _matches(cur, c):
-    """Number of raw characters that spell `c` at the cursor (0 = no match)."""
+def _matches(cur, c, digraphs=True):
+    """Number of raw characters that spell `c` at the cursor (0 = no match).  Digraphs are punctuator spellings:
+    inside a comment or a literal `<%` is two characters of text, not a spelling of `{` (trigraphs are replaced
+    everywhere)."""
     t, i = cur.text, cur.i
     if i < len(t) and t[i] == c:
         # a literal match -- unless the raw text is a trigraph for another character
@@ -249,7 +251,7 @@ def _matches(cur, c):
     if TRIGRAPHS.get(tri) == c:
         return 3
     di = t[i:i + 2]
-    if DIGRAPHS.get(di) == c:
+    if digraphs and DIGRAPHS.get(di) == c:
         return 2
     return 0
 
